@@ -76,6 +76,17 @@ Definition nauc_eval (invert : bool) (d : @data (nat * Q)) : aucres :=
     if ((P =? 0) || (N =? 0))%nat then AucNaN else AucVal (- auc_sweep P N (sort_desc L))
   end.
 
+(* the two-argument eval on vector-valued predictions: "Empty prediction set" and "Can not compute with more than two columns"
+   exceptions, then column 0 of 1-dimensional and column 1 of 2-dimensional predictions; dataDimension = size of the first element *)
+Definition nauc_eval_vec (invert : bool) (d : @data (nat * vec)) : aucres :=
+  match elems d with
+  | [] => AucExc
+  | e0 :: _ =>
+    let dim := length (snd e0) in
+    if (3 <=? dim)%nat then AucExc
+    else nauc_eval invert (map (map (fun e => (fst e, nth (dim - 1) (snd e) 0))) d)
+  end.
+
 (* ---- specification: pair counting (Wilcoxon-Mann-Whitney with ties counted one half) ---- *)
 Definition pos_scores (L : list aucpair) : list Q := map fst (filter is_pos L).
 Definition neg_scores (L : list aucpair) : list Q := map fst (filter is_neg L).
